@@ -74,6 +74,22 @@ def probJson (nm : V → String) (p : Prob) : Json :=
     ("obj", coJson nm p.obj),
     ("dir", Json.str (if p.dirMax then "max" else "min"))]
 
+def ratsJ (l : List Rat) : Json := Json.arr (l.map (fun q => Json.str (ratStr q))).toArray
+def bndJ (b : EB × EB) : Json := Json.arr #[Json.str (ebStr b.1), Json.str (ebStr b.2)]
+
+def samplerJson (sp : SamplerProb) : Json :=
+  Json.mkObj [("equalities", Json.arr (sp.equalities.map ratsJ).toArray), ("b", ratsJ sp.b),
+    ("inequalities", Json.arr (sp.inequalities.map ratsJ).toArray), ("bounds", Json.arr (sp.bounds.map bndJ).toArray),
+    ("fixed", Json.arr (sp.fixed.map Json.bool).toArray), ("var_bounds", Json.arr (sp.varBounds.map bndJ).toArray),
+    ("homogeneous", Json.bool sp.homogeneous)]
+
+def extraOf (j : Json) : Except String Row := do
+  let co ← (← (← j.getObjVal? "co").getArr?).toList.mapM (fun p => do
+    let a ← p.getArr?
+    if a.size != 2 then throw "bad coefficient entry"
+    pure (← a[0]!.getNat?, ← parseRat (← a[1]!.getStr?)))
+  pure (extraRow (← (← j.getObjVal? "name").getStr?) (← parseEB (← (← j.getObjVal? "lb").getStr?)) (← parseEB (← (← j.getObjVal? "ub").getStr?)) co)
+
 def pairsOf (j : Json) (k : String) : Except String (List (Nat × Bool)) := do
   (← (← j.getObjVal? k).getArr?).toList.mapM (fun p => do
     let a ← p.getArr?
@@ -116,6 +132,12 @@ def handle (j : Json) : Except String Json := do
       | .malformed => throw "malformed rule")
     let ko ← (← (← j.getObjVal? "ko").getArr?).toList.mapM (fun x => x.getStr?)
     pure (probJson nm (n.geneDeletion rules ko))
+  | "sampler" =>
+    let extra ← (← (← j.getObjVal? "extra").getArr?).toList.mapM extraOf
+    pure (samplerJson ((n.fbaWith extra).sampler (← ratOf j "tol")))
+  | "fbaWith" =>
+    let extra ← (← (← j.getObjVal? "extra").getArr?).toList.mapM extraOf
+    pure (probJson nm (n.fbaWith extra))
   | "loopless" =>
     let ns ← (← (← j.getObjVal? "ns").getArr?).toList.mapM (fun r => do (← r.getArr?).toList.mapM (fun x => do parseRat (← x.getStr?)))
     pure (probJson nm (n.loopless ns (← ratOf j "cutoff")))
